@@ -295,12 +295,18 @@ Definition alloc_stakers (R : Z) (stakers : list (Z * Z)) (rewards : fmap Z) : f
         R - zsum (map (fun sp => alloc_reward R (snd sp) total) stakers))
   else (rewards, R).
 
-(* the list as the code builds it: for every asset of the avsAssets MAP (schedule) the stakers of the operator for that
-   asset (a stored, ordered list), each with its power; then sort.Slice by power, descending, not stable *)
-Definition alloc_from_assets (R : Z) (stakers_of : Z -> list Z) (power : Z -> Z) (assets : list Z) (rewards : fmap Z) : fmap Z * Z :=
+(* the list as the code builds it (HEAD, after the repair "a staker is listed once with accumulated power"): for every
+   asset of the avsAssets MAP (schedule) the stakers of the operator for that asset (a stored, ordered list), each
+   with its power for that (avs, asset) visit; a staker met again is NOT listed again, its power is added up
+   (stakersPowerMap[staker] = prev + cur).  [occ] = the occurrences (staker, power) in visiting order. *)
+Definition acc_power (occ : list (Z * Z)) (s : Z) : Z := zsum (map snd (filter (fun e => fst e =? s) occ)).
+Definition first_occ (l : list Z) : list Z := rev (nodup Z.eq_dec (rev l)).      (* first occurrences, in order *)
+Definition alloc_accum (R : Z) (occ : list (Z * Z)) (rewards : fmap Z) : fmap Z * Z :=
   alloc_stakers R
-    (sort_by (fun sp => - snd sp) (flat_map (fun a => map (fun s => (s, power s)) (stakers_of a)) assets))
+    (sort_by (fun sp => - snd sp) (map (fun s => (s, acc_power occ s)) (first_occ (map fst occ))))   (* sort.Slice, descending *)
     rewards.
+Definition alloc_from_assets (R : Z) (stakers_of : Z -> list Z) (power : Z -> Z -> Z) (assets : list Z) (rewards : fmap Z) : fmap Z * Z :=
+  alloc_accum R (flat_map (fun a => map (fun s => (s, power a s)) (stakers_of a)) assets) rewards.
 
 (* an order-SENSITIVE variant, used only to show that the theorem about [alloc_stakers] is not vacuous and as
    the model of a seeded mutation: the rounding remainder goes to the staker visited last *)
@@ -318,15 +324,24 @@ Fixpoint alloc_dust_last (R total rem : Z) (stakers : list (Z * Z)) (rewards : f
 (* x/avs: GroupTasksByIDAndAddress (sort.Slice inside a map range), the epoch hook's loop over the groups,
    types.Difference                                                                                  *)
 
-Record task_res := mkTask { t_op : Z; t_signed : bool }.
+(* one stored result: operator, "has a signature", and the operator's active USD value for the task's AVS
+   (None = GetOperatorOptedUSDValue fails: the hook `continue`s, the operator counts as signed but adds no power) *)
+Record task_res := mkTask { t_op : Z; t_signed : bool; t_power : option Z }.
 
-(* per group: results sorted by operator; statistics written to the task's own key *)
-Definition group_stat (g : list task_res) : list Z * Z :=
+(* per group: results sorted by operator; statistics written to the task's own key:
+   (signed operators, their (operator, power) list, total power) *)
+Definition group_stat (g : list task_res) : list Z * list (Z * Z) * Z :=
   let s := sort_by t_op g in
   let signed := map t_op (filter t_signed s) in
-  (signed, Z.of_nat (length signed)).
-Definition hook_groups (groups : list (Z * list task_res)) (tasks : fmap (list Z * Z)) : fmap (list Z * Z) :=
-  keyed_fold (fun kg => fst kg) (fun kg _ => Some (group_stat (snd kg))) groups tasks.
+  let powers := flat_map (fun t => if t_signed t then match t_power t with Some p => [(t_op t, p)] | None => [] end else []) s in
+  (signed, powers, zsum (map snd powers)).
+(* a group = (task key, (ok, results)); ok = GetTaskInfo and GetAVSUSDValue succeed for the group's own task / AVS
+   (both are reads keyed by the group itself); when they do not, the hook `continue`s and writes nothing *)
+Definition hook_groups (groups : list (Z * (bool * list task_res))) (tasks : fmap (list Z * list (Z * Z) * Z))
+  : fmap (list Z * list (Z * Z) * Z) :=
+  keyed_fold (fun kg : Z * (bool * list task_res) => fst kg)
+             (fun (kg : Z * (bool * list task_res)) old => if fst (snd kg) then Some (group_stat (snd (snd kg))) else old)
+             groups tasks.
 
 (* types.Difference(a, b): elements of b not (any more) in the set of a, in b's order; then what is left of the
    set in MAP ORDER; then sort.Strings *)
@@ -453,7 +468,7 @@ Inductive site_case :=
          (failed1 sealed1 failed2 sealed2 : list Z).
 
 Definition group_tasks (gid : Z) (tasks : list (Z * Z * bool)) : list task_res :=
-  flat_map (fun t => let '(g, op, sg) := t in if g =? gid then [mkTask op sg] else []) tasks.
+  flat_map (fun t => let '(g, op, sg) := t in if g =? gid then [mkTask op sg None] else []) tasks.
 
 Definition bool_fail (b : bool) : option nat := if b then None else Some O.
 
